@@ -4,6 +4,7 @@ EXTRACT = []
 FAMILIES = [
     {"name": "calc", "family": "calc", "n_quick": 60000, "n_thorough": 600000, "seeds_thorough": 3},
     {"name": "amm", "family": "amm", "driver": "drv_amm", "n_quick": 2500, "n_thorough": 20000, "seeds_thorough": 4},
+    {"name": "ammrt", "family": "ammrt", "driver": "drv_amm", "n_quick": 2500, "n_thorough": 20000, "seeds_thorough": 3},
 ]
 RULE = ("amm: L1 histories on the real message server (three swap routes, fee overrides, ratio-shifting rates, liabilities) with the "
         "balance changes of ALL known accounts judged by Spec.C03.settleOK and the whole state compared with the model; "
